@@ -52,7 +52,8 @@ def ratSqrt (r : Rat) : Rat := if r ≤ 0 then 0 else ofF (Float.sqrt (toF r))
 
 def magR (v : V3 Rat) : Rat := ratSqrt (V3.normSq v)
 
-def big : Rat := 10000000000000000
+/-- the starting value of `r1` (the model's `bigR1`, proved equal to the constant in the source: `gen_r1Init_eq_model`). -/
+def big : Rat := bigR1
 
 def run (p : P String) (toks : List String) : String :=
   match p.run toks with
@@ -64,6 +65,17 @@ def handleC17 (toks : List String) : String :=
   | "disp" :: rest => run (do
       let c ← pCell; let n ← pNat; let p0 ← pPos n; let p1 ← pPos n; pEnd
       pure (showVs ((List.range n).map (displacement c (fn p0) (fn p1))))) rest
+  | "dispcall" :: rest => run (do
+      -- displacement(system_0, system_1, box_reference) as a whole: REF CELL0 CELL1 n0 POS0 n1 POS1 -> 3n | err:value
+      let r ← tok
+      let ref ← (match r with
+        | "final" => pure BoxRef.final | "initial" => pure BoxRef.initial | "none" => pure BoxRef.none
+        | "other" => pure BoxRef.other | _ => failure : P BoxRef)
+      let c0 ← pCell; let c1 ← pCell; let n0 ← pNat; let p0 ← pPos n0; let n1 ← pNat; let p1 ← pPos n1; pEnd
+      match displacementCall n0 n1 c0 c1 ref (fn p0) (fn p1) with
+      | .ok d => pure (showVs ((List.range n0).map d))
+      | .error .value => pure (err "value")
+      | .error .assert => pure (err "assert")) rest
   | "slip" :: rest => run (do
       let c ← pCell; let n ← pNat; let p0 ← pPos n; let p1 ← pPos n; let nl ← pNlist n; let sel ← pSel n; pEnd
       if !nlistOk n nl then pure (err "value") else
